@@ -212,7 +212,17 @@ inductive COp where
   | sendPing (bs : Bytes)
   | sendClose (code : Nat) (reason : Bytes)
   | data (bs : Bytes)
+  | disconnect (code : Nat) (reason : Bytes)      -- `disconnect(code, reason)` → `teardownTransport(gracefulClose = true)`
   deriving Repr
+
+/-- mirrors `disconnect()` → `teardownTransport(true, code, reason)` + `setState(CLOSED)`: the transport is taken away
+(snapshot + reset under `_transportMutex`); if there was one and the state is CONNECTED the courtesy CLOSE frame is handed
+over with `_closeSent` set, both under `_sendMutex` (repair FC18e: before, neither the lock nor the flag) -/
+def cDisconnect (s : CSess) (code : Nat) (reason : Bytes) : CSess × List CEv :=
+  if s.connected then
+    let (s1, ev) := cSendClose s code reason
+    ({ s1 with connected := false }, ev)
+  else ({ s with connected := false }, [])
 
 def cStep (cfg : CCfg) (s : CSess) : COp → CSess × List CEv
   | .sendText bs => cSendStep s (.text bs)
@@ -220,6 +230,7 @@ def cStep (cfg : CCfg) (s : CSess) : COp → CSess × List CEv
   | .sendPing bs => cSendStep s (.ping bs)
   | .sendClose c r => cSendStep s (.close c r)
   | .data bs => cOnData cfg s bs
+  | .disconnect c r => cDisconnect s c r
 
 def cRun (cfg : CCfg) : CSess → List COp → CSess × List CEv
   | s, [] => (s, [])
@@ -230,5 +241,19 @@ def cRun (cfg : CCfg) : CSess → List COp → CSess × List CEv
 
 /-- the state `doConnect` leaves before the upgrade response arrives -/
 def preUpgrade : CSess := { connected := false, upgraded := false }
+
+/-- mirrors the re-arming block of `doConnect` (state CONNECTING, then the per-connection fields): DEFINED from the list of
+resets the translator finds in the source (`Gen.Ws.clientConnectResets`) - a field whose reset is missing keeps the
+value the previous connection left -/
+def cReconnect (s : CSess) : CSess :=
+  let has := fun (n : String) => Gen.Ws.clientConnectResets.contains n
+  { buffer := if has "_buffer" then [] else s.buffer
+    fragBuf := if has "_fragmentBuffer" then [] else s.fragBuf
+    fragOp := if has "_fragmentOpcode" then 0 else s.fragOp
+    closeEchoed := if has "_closeEchoed" then false else s.closeEchoed
+    protocolFailed := if has "_protocolFailed" then false else s.protocolFailed
+    closeSent := if has "_closeSent" then false else s.closeSent
+    connected := false
+    upgraded := if has "_upgradeComplete" then false else s.upgraded }
 
 end Iora.Ws
